@@ -136,7 +136,7 @@ def gen_cases(tier, seed, n_quick, n_thorough, opts_per_input=3, profile=None):
     stats = {}
     for k in range(n):
         r = random.Random('pyb/%d/%d' % (seed, k))
-        prof = profile or G.Profile()
+        prof = profile or G.Profile(p_keyword_arg=0.06)
         g = G.Gen(r, prof)
         m = g.module()
         out.append(('gen:%d/%d' % (seed, k), G.text(G.tokens(m))))
